@@ -1,7 +1,7 @@
 """C06 - a persistent result stream is a correct prefix and always ends, whatever happens."""
 import ast
 
-from ..astutil import (AnalysisError, dotted, calls_in, last_attr, receiver, norm, is_name, walk_local, is_self_attr,
+from ..astutil import (split_if, edge_facts, AnalysisError, dotted, calls_in, last_attr, receiver, norm, is_name, walk_local, is_self_attr,
                        loc, short, parent_map)
 from ..cfg import is_flow, path_str
 from ..lifecycle import lifecycle, worker_classes, landing_label, handler_context, is_persistent
@@ -17,7 +17,7 @@ EXPLANATION = (
     'non-blockingly once the worker is not alive; the non-blocking read polls before it receives and maps every transport '
     'failure to queue.Empty (escape summary); results_iter stops on queue.Empty. R4: marker emission is guarded by the '
     'cleaned-up flag. R5: every attribute read by the clean-up closure is assigned before the child is created (constructor '
-    'chain prefix), not only inside the guarded body.')
+    'chain prefix), not only inside the guarded body. R6: the sockets of the remote protocol are blocking (an idle persistent worker is not a dead one), and when the server learns from the child\'s sentinel that the child died it shuts down the write side of the data socket (helpers followed) - close() alone sends no EOF while the accept loop holds a copy of a context worker\'s socket.')
 TECHNIQUE = 'must-pass-through on the CFG with exception/async edges (budgeted path search), product-state exploration, escape summaries, definite assignment over the constructor chain'
 
 PERSISTENT = ['PersistentThreadWorker', 'PersistentProcessWorker', 'PersistentRemoteWorker', 'RemoteContextWorker']
@@ -82,6 +82,10 @@ def assigned_before_child(ctx, cls):
 
 
 def run(ctx):
+    from ..sockets import check_blocking_sockets, check_child_death_eof, check_forced_kill_eof
+    check_blocking_sockets(ctx, 'R6')
+    check_child_death_eof(ctx, 'R6')
+    check_forced_kill_eof(ctx, 'R6')
     from ..frame import check_frame_attrs
     check_frame_attrs(ctx, 'C06', 'R4')
     P = ctx.prog
@@ -360,13 +364,43 @@ def check_reader(ctx):
     # flag false -> queue.Empty
     unpack = [st for st in walk_local(nr.node) if isinstance(st, ast.Assign) and isinstance(st.targets[0], ast.Tuple) and len(st.targets[0].elts) == 4]
     ok = False
+    marker_branch = None
     if unpack:
         fv = unpack[0].targets[0].elts[1]
         for st in walk_local(nr.node):
-            if isinstance(st, ast.If) and isinstance(fv, ast.Name) and norm(st.test) == f'not {fv.id}' and any(isinstance(x, ast.Raise) and 'Empty' in norm(x.exc) for x in st.body):
+            sp = split_if(st, lambda t: isinstance(fv, ast.Name) and is_name(t, fv.id)) if isinstance(st, ast.If) else None
+            if sp and any(isinstance(x, ast.Raise) and 'Empty' in norm(x.exc) for x in sp[1]):
                 ok = True
+                marker_branch = sp[1]          # statements run when the flag is false
     ctx.check('R3', 'next_result: an end marker (flag False) raises queue.Empty', ok, 'PersistentWorker.next_result', 'marker-not-mapped-to-Empty',
               'next_result() does not turn the end-of-stream marker into queue.Empty', where=loc(nr, nr.node))
+    # the end of the stream is latched: nothing is ever written after the marker, so once it has been read no later call may wait
+    # (is_alive() is no evidence - the forwarding thread of a remote worker outlives the marker it has forwarded)
+    latch = None
+    for x in marker_branch or []:
+        if isinstance(x, ast.Assign) and len(x.targets) == 1 and is_self_attr(x.targets[0]) and isinstance(x.value, ast.Constant) and x.value.value is True:
+            latch = x.targets[0].attr
+    ctx.check('R3', 'next_result: reading the end marker is remembered (a flag is set before queue.Empty is raised)', latch is not None, 'PersistentWorker.next_result', 'end-of-stream-not-latched',
+              'next_result() forgets that it has read the end-of-stream marker: a later call made while is_alive() is still true (the forwarding thread of a remote worker stays alive '
+              'for a while after the marker) does a blocking read on a pipe nobody writes to any more and never returns, even after the worker has died', where=loc(nr, nr.node))
+    if latch is not None:
+        gn = ctx.an.cfg(nr, PW)
+        dom = gn.dominators(edge_ok=is_flow)
+        good = {e.dst.id for n in gn.nodes if n.kind == 'test' for e in n.succ if e.kind in ('true', 'false') and (f'self.{latch}', False) in edge_facts(e)}
+        reads = [n for n in gn.nodes if n.stmt is not None and n.part == 'eval' and any(last_attr(c) in ('get', 'get_nowait', 'recv') for c in n.calls())]
+        okl = bool(reads) and all(dom.get(n.id, set()) & good for n in reads)
+        ctx.check('R3', f'next_result: every read of the result pipe is dominated by `not self.{latch}`', okl, 'PersistentWorker.next_result', 'read-after-end-of-stream',
+                  f'a read of the result pipe in next_result() is not guarded by the end-of-stream flag self.{latch}', where=loc(nr, nr.node))
+        inits = [f for f in P.funcs.values() if f.name == '__init__' and f.cls is not None and any(
+            isinstance(x, ast.Assign) and any(is_self_attr(t, latch) for t in x.targets) and isinstance(x.value, ast.Constant) and x.value.value is False for x in walk_local(f.node))]
+        ctx.check('R3', f'the end-of-stream flag self.{latch} starts False in the constructor (and so after every restart)', bool(inits), 'PersistentWorker.__init__', 'latch-not-initialised',
+                  f'self.{latch} is not initialised to False by a constructor: next_result() raises AttributeError, or a restarted worker starts with an ended stream', where=loc(nr, nr.node))
+        writers = [(f, x) for f in P.funcs.values() for x in walk_local(f.node) if isinstance(x, (ast.Assign, ast.AugAssign)) and any(
+            is_self_attr(t, latch) for t in (x.targets if isinstance(x, ast.Assign) else [x.target]))]
+        foreign = [(f, x) for f, x in writers if f not in inits and f is not nr]
+        ctx.check('R3', f'self.{latch} is written only by the constructor and by next_result', not foreign, foreign[0][0].short if foreign else 'PersistentWorker.next_result',
+                  'latch-written-elsewhere', f'self.{latch} is also written by {foreign[0][0].short if foreign else ""}: the stream can be declared ended (results lost) or re-opened (a read that never returns)',
+                  where=loc(foreign[0][0], foreign[0][1]) if foreign else loc(nr, nr.node))
     # PipeEndpoint.get(block=False): poll before recv, all transport failures -> queue.Empty
     PE = P.cls('PipeEndpoint')
     get = PE.methods.get('get')
